@@ -196,7 +196,7 @@ def run(rep, work, tier, seed, props, replay=None):
         "pointer_level_heap": heap_cov,
     })
     rep.assumptions += ["leaves are created by copy (mg.tensor(array)); tensors over overlapping user arrays (copy=False) are outside the property",
-                        "shape assignment (t.shape = s) is exercised by C15's probes, not yet by these histories"]
+                        "histories whose views carry an explicit constant flag are compared with the NumPy mirror and the flag oracle; the exact functional model does not follow such flags"]
 
 
 def _index_hist(builders):
